@@ -86,6 +86,12 @@ package producer
 //@     step [idle] recvs_mCh == iter(recvs_mCh) && calls_WriteMessages == iter(calls_WriteMessages) ==> batch == iter(batch)
 //@     step [flush] calls_WriteMessages == iter(calls_WriteMessages) + 1 ==> len(batch) == 0 && (recvs_mCh == iter(recvs_mCh) + 1 ? batchPlus(WriteMessages_arg1, iter(batch), lastrecv_mCh) : WriteMessages_arg1 == iter(batch))
 
+// every producer gets its own driver instance: what it is set up with and sends to is its own configuration (C14)
+//@ func NewProducer
+//@   names mqName _ mqRegistered
+//@   opt noglobals the driver handed out must not be an object kept in a package variable, which every other producer of the same kind would share
+//@   ensures result != nil
+
 // >>> field snapshots (govc -gen-names)
 //@ fields KafkaSarama producer config logger
 //@ fields KafkaSaramaConfig Brokers Compression RetryMax RequestSizeMax RetryBackoff TLSEnabled TLSCertFile TLSKeyFile CAFile TLSSkipVerify SASLUsername SASLPassword
